@@ -62,6 +62,8 @@ type Ctx struct {
 	initPoisoned          map[*MapV]bool
 	syllableConvertFolded bool
 	playPipelineChecked   bool
+	descKeyFold           *foldVerdict
+	descFold              *foldVerdict
 	readArgsFold          *foldVerdict
 	circleFold            *foldVerdict
 	scalesFold            *foldVerdict
